@@ -2627,6 +2627,13 @@ EbErrorType decode_multiple_obu(EbDecHandle *dec_handle_ptr, uint8_t **data, siz
                     dec_handle_ptr->seen_frame_header = 0;
                     return status;
                 }
+                if (dec_handle_ptr->frame_header.show_existing_frame) {
+                    /* a shown existing frame has no tile data: OBU_FRAME cannot carry it, and a later
+                     * tile group must not be decoded against the state of the frame that was shown */
+                    dec_handle_ptr->seen_frame_header = 0;
+                    if (obu_header.obu_type == OBU_FRAME)
+                        return EB_Corrupt_Frame;
+                }
             }
             /*else {
                  For OBU_REDUNDANT_FRAME_HEADER, previous frame_header is taken from dec_handle_ptr->frame_header
